@@ -4,6 +4,7 @@ from ..common import calls_in, norm, GEO, kw
 from ..model import AnalysisError, body_nodes
 from ..signatures import name_uses
 from ..dataflow import defs_reaching, comprehension_binding
+from ..pattern import pmatch, pstmt, text
 
 EXPLANATION = (
     "Hand-assembled JSON writer and the reader checked for: (TNT-json) every dynamic fragment interpolated into text given to "
@@ -143,9 +144,12 @@ def check(ctx):
     ctx.ob("SIB-16", w, "for key, value in self.metadata.items()", mloops[0] if mloops else w.node, ok,
            "every metadata member is written" if ok else "some metadata members are skipped by the writer",
            clause="all other top-level members in metadata ... equal metadata")
+    rawdef = [n for n in body_nodes(r.node) if isinstance(n, ast.Assign) and isinstance(n.targets[0], ast.Name)
+              and any(isinstance(c, ast.Call) and repo.dotted(r, c.func) in ("json.load", "json.loads") for c in ast.walk(n.value))]
+    RAW = norm(rawdef[0].targets[0]) if rawdef else "raw"
     dels = [n for n in body_nodes(r.node) if isinstance(n, ast.Delete)]
     del_t = [norm(t) for n in dels for t in n.targets]
-    pops = [norm(c) for f, c in calls_in(r) if isinstance(c.func, ast.Attribute) and c.func.attr == "pop" and "raw" in norm(c.func.value)]
+    pops = [norm(c) for f, c in calls_in(r) if isinstance(c.func, ast.Attribute) and c.func.attr == "pop" and norm(c.func.value) == RAW]
     removed = del_t + pops
     ok = len(removed) == 1 and "features" in removed[0]
     ctx.ob("SIB-16", r, f"members removed from the raw object: {removed}", dels[0] if dels else r.node, ok,
@@ -153,7 +157,7 @@ def check(ctx):
            f"reader removes {removed} from the raw object: other top-level members are lost (or 'features' is duplicated in metadata)",
            clause="all other top-level members in metadata")
     meta = [n for n in body_nodes(r.node) if isinstance(n, ast.Assign) and isinstance(n.targets[0], ast.Attribute) and n.targets[0].attr == "metadata"]
-    ok = bool(meta) and norm(meta[0].value) == "raw"
+    ok = bool(meta) and norm(meta[0].value) == RAW
     ctx.ob("SIB-16", r, norm(meta[0]) if meta else "data.metadata = raw", meta[0] if meta else r.node, ok,
            "metadata is the raw object minus features" if ok else "metadata is not taken from the raw object", nontrivial=False)
     if meta and dels:
@@ -191,7 +195,8 @@ def check(ctx):
            clause="missing where a feature lacks it")
     if gets and len(floops) >= 2:
         inner = [n for n in ast.walk(floops[-1]) if isinstance(n, ast.For) and n is not floops[-1]]
-        ok = bool(inner) and norm(inner[0].iter) in ("data", "data.keys()", "list(data)")
+        dn = norm(sd[0].func.value) if sd else "data"
+        ok = bool(inner) and norm(inner[0].iter) in (dn, f"{dn}.keys()", f"list({dn})")
         app = [c for f, c in calls_in(r) if isinstance(c.func, ast.Attribute) and c.func.attr == "append" and _inside(r, c, floops[-1])]
         ok = ok and bool(app) and not any(isinstance(x, (ast.Continue, ast.Break)) for x in ast.walk(floops[-1]))
         ctx.ob("FILL", r, "every feature appends one value to every column", floops[-1], ok,
